@@ -280,6 +280,7 @@ def run(ctx):
         "a client touches the protected data only while it holds the lock (built into the client model and the harness)",
         "Identifiable: atomicity of constructor/destructor/get_object is PROVED for the bodies read from identifiable.h (every access to next_id_/objects_ under the lock_guard, theorems C19_identifiable_*), assuming std::mutex/std::lock_guard give mutual exclusion and sequentially consistent critical sections; fewer than 2^64-1 objects per type; std::unordered_map is modelled as a finite map; DefaultSettable is NOT synchronised by the library: set_default/get_default/destruction of the default object are assumed confined to one thread at a time",
         "the translators translate/gen_spin.py and translate/gen_mixins.py (clang AST -> Lang.v / MixLang.v) are trusted; they are exercised by the correspondence and ThreadSanitizer runs of the same property",
+        "progress (Properties_C19_progress.v): no thread of the model is ever stuck -- the 64 units of fuel of Sem.norm suffice for every thread-local run of the regenerated and of the reviewed program (sweep of all reachable local configurations, 11 resp. 10 units are needed) -- and every unfinished thread is enabled; NO LIVENESS is claimed: there is no fairness assumption on the schedules and a test-and-set lock is not starvation-free, so termination of lock() is neither proved nor true; the acquisition theorems are conditional on the thread performing its test_and_set at a moment when the flag is clear",
     ]
 
 
